@@ -246,7 +246,7 @@ func RunSource(src core.FlatRowSource, o QueryOpts) (*Result, error) {
 			res.Fields = fields.Names()
 			return nil
 		}, func(row *core.FlatRow) (bool, error) {
-			r := RefRow{TS: row.TS, Key: CanonKey(row.Key), Vals: make(map[string]float64, len(row.Values))}
+			r := RefRow{TS: row.TS, Key: CanonKey(row.Key), Vals: make(map[string]float64, len(row.Values)), KeyMap: row.Key.AsMap()}
 			for j, v := range row.Values {
 				if j < len(res.Fields) {
 					r.Vals[res.Fields[j]] = v
